@@ -552,6 +552,14 @@ class Outcome:
         self.trans_refused = trans_refused
 
 
+def _crash_text(out):
+    """The interesting part of a crashed run's output."""
+    keep = [ln for ln in out.splitlines()
+            if re.search(r"error|signal|SIG|At line|Fortran runtime|exit \d",
+                         ln)]
+    return " | ".join(keep)[:600] or out[-600:]
+
+
 def has_omp(case):
     return case.get("trans", {}).get("kind", "none") != "none"
 
@@ -701,31 +709,45 @@ def execute(cases, configs, workdir, infra, threads=(1, 3, 4), tag="b",
         except rt.CompileError as err:
             raise HarnessError(f"link failed: {err}") from err
         need = sorted(threads) if any(has_omp(c) for c in cases) else [1]
-        runs = {}
-        failed = None
+        per_case = [dict() for _ in cases]       # nth -> observed | RunError
         for nth in need:
+            env = {"OMP_NUM_THREADS": str(nth)}
             try:
-                out = rt.run_exe(exe, {"OMP_NUM_THREADS": str(nth)})
-                runs[nth] = rt.parse_driver_output(out)
+                parsed = rt.parse_driver_output(rt.run_exe(exe, env))
+                for idx in range(len(cases)):
+                    per_case[idx][nth] = parsed.get(f"{tag}c{idx}")
             except rt.RunError as err:
-                failed = (nth, str(err))
-                break
-        if failed:
-            if not isolate([cidx], "runtime"):
-                results[(0, cidx)] = Outcome(
-                    "runtime", f"OMP_NUM_THREADS={failed[0]}: " +
-                    failed[1][-1200:], subs_text[0][1])
-            continue
+                if len(cases) == 1:
+                    per_case[0][nth] = err
+                    continue
+                # isolate the crashing case(s): same executable, one case
+                # per process
+                for idx in range(len(cases)):
+                    try:
+                        parsed = rt.parse_driver_output(
+                            rt.run_exe(exe, env, args=[idx + 1]))
+                        per_case[idx][nth] = parsed.get(f"{tag}c{idx}")
+                    except rt.RunError as err1:
+                        per_case[idx][nth] = err1
         for idx, case in enumerate(cases):
             mine = {}
-            for nth, parsed in runs.items():
-                if not has_omp(case) and nth != min(runs):
+            crash = None
+            for nth in need:
+                if not has_omp(case) and nth != need[0]:
                     continue
-                got = parsed.get(f"{tag}c{idx}")
+                got = per_case[idx][nth]
+                if isinstance(got, rt.RunError):
+                    crash = (nth, str(got))
+                    break
                 if got is None or not got["complete"]:
                     raise HarnessError(f"no output for case {idx}")
                 mine[nth] = got
-            results[(idx, cidx)] = Outcome(
-                "ok", "", subs_text[idx][1], mine,
-                trans_refused=refusals[cidx][idx])
+            if crash:
+                results[(idx, cidx)] = Outcome(
+                    "runtime", f"OMP_NUM_THREADS={crash[0]}: " +
+                    _crash_text(crash[1]), subs_text[idx][1])
+            else:
+                results[(idx, cidx)] = Outcome(
+                    "ok", "", subs_text[idx][1], mine,
+                    trans_refused=refusals[cidx][idx])
     return results
